@@ -318,7 +318,9 @@ func (m *MessageAuthenticator) verifyKESSignature(
 	kesVerifierVal := m.kesVerifier.Load()
 	if kesVerifierVal != nil {
 		kesVerifier, ok := kesVerifierVal.(func([]byte, []byte, []byte, uint64, uint64, uint64) (bool, error))
-		if ok {
+		// SetKESVerifier(nil) stores a typed nil func, which is a non-nil
+		// interface value; treat it as "no verifier" rather than calling it
+		if ok && kesVerifier != nil {
 			kesPeriod := msg.Payload.KESPeriod
 			computedSlot := kesPeriod * m.slotsPerKesPeriod
 			if slot != nil {
